@@ -3,7 +3,7 @@
 use crate::common::*;
 use crate::eng_vec::{flag_waker, Flag, Op};
 use eyeball_im::{ObservableVector, ObservableVectorTransaction, VectorDiff};
-use eyeball_im_util::vector::{Filter, FilterMap, Head, Skip, Sort, SortBy, SortByKey, Tail, VectorObserver, VectorSubscriberExt};
+use eyeball_im_util::vector::{Head, Skip, Tail, VectorObserver, VectorObserverExt, VectorSubscriberExt};
 use futures_core::Stream;
 use imbl::Vector;
 use std::cell::RefCell;
@@ -116,12 +116,12 @@ macro_rules! builder {
                 // the last stage stays concrete if it is a dynamic Head / Tail / Skip
                 if si + 1 == specs.len() && sp.lim().is_some() {
                     let (v, top): (Vector<V>, Top<$item>) = match sp.clone() {
-                        Spec::DHead(k) => (Vector::new(), Top::H(Head::dynamic(vals, stream, lims[k].clone()))),
-                        Spec::DHeadI(l, k) => { let (v, s) = Head::dynamic_with_initial_limit(vals, stream, l, lims[k].clone()); (v, Top::H(s)) }
-                        Spec::DTail(k) => (Vector::new(), Top::T(Tail::dynamic(vals, stream, lims[k].clone()))),
-                        Spec::DTailI(l, k) => { let (v, s) = Tail::dynamic_with_initial_limit(vals, stream, l, lims[k].clone()); (v, Top::T(s)) }
-                        Spec::DSkip(k) => (Vector::new(), Top::K(Skip::dynamic(vals, stream, lims[k].clone()))),
-                        Spec::DSkipI(c, k) => { let (v, s) = Skip::dynamic_with_initial_count(vals, stream, c, lims[k].clone()); (v, Top::K(s)) }
+                        Spec::DHead(k) => (Vector::new(), Top::H((vals, stream).dynamic_head(lims[k].clone()))),
+                        Spec::DHeadI(l, k) => { let (v, s) = (vals, stream).dynamic_head_with_initial_value(l, lims[k].clone()); (v, Top::H(s)) }
+                        Spec::DTail(k) => (Vector::new(), Top::T((vals, stream).dynamic_tail(lims[k].clone()))),
+                        Spec::DTailI(l, k) => { let (v, s) = (vals, stream).dynamic_tail_with_initial_value(l, lims[k].clone()); (v, Top::T(s)) }
+                        Spec::DSkip(k) => (Vector::new(), Top::K((vals, stream).dynamic_skip(lims[k].clone()))),
+                        Spec::DSkipI(c, k) => { let (v, s) = (vals, stream).dynamic_skip_with_initial_count(c, lims[k].clone()); (v, Top::K(s)) }
                         _ => unreachable!(),
                     };
                     taps.push(Rc::new(RefCell::new(vec![])));
@@ -129,20 +129,20 @@ macro_rules! builder {
                     return (None, Some(top), inits, taps);
                 }
                 let (v, s): (Vector<V>, $boxty) = match sp.clone() {
-                    Spec::Head(l) => { let (v, s) = Head::new(vals, stream, l); (v, Box::pin(s)) }
-                    Spec::DHead(k) => { let h = Head::dynamic(vals, stream, lims[k].clone()); let (v, s) = VectorObserver::into_parts(h); (v, Box::pin(s)) }
-                    Spec::DHeadI(l, k) => { let (v, s) = Head::dynamic_with_initial_limit(vals, stream, l, lims[k].clone()); (v, Box::pin(s)) }
-                    Spec::Tail(l) => { let (v, s) = Tail::new(vals, stream, l); (v, Box::pin(s)) }
-                    Spec::DTail(k) => { let h = Tail::dynamic(vals, stream, lims[k].clone()); let (v, s) = VectorObserver::into_parts(h); (v, Box::pin(s)) }
-                    Spec::DTailI(l, k) => { let (v, s) = Tail::dynamic_with_initial_limit(vals, stream, l, lims[k].clone()); (v, Box::pin(s)) }
-                    Spec::Skip(c) => { let (v, s) = Skip::new(vals, stream, c); (v, Box::pin(s)) }
-                    Spec::DSkip(k) => { let h = Skip::dynamic(vals, stream, lims[k].clone()); let (v, s) = VectorObserver::into_parts(h); (v, Box::pin(s)) }
-                    Spec::DSkipI(c, k) => { let (v, s) = Skip::dynamic_with_initial_count(vals, stream, c, lims[k].clone()); (v, Box::pin(s)) }
-                    Spec::Filter(m) => { let (v, s) = Filter::new(vals, stream, move |x: &V| passes(m, *x)); (v, Box::pin(s)) }
-                    Spec::FMap(m, f) => { let g = crate::eng_diff::map_fn(f); let (v, s) = FilterMap::new(vals, stream, move |x: V| if passes(m, x) { Some(g(x)) } else { None }); (v, Box::pin(s)) }
-                    Spec::Sort(0) => { let (v, s) = Sort::new(vals, stream); (v, Box::pin(s)) }
-                    Spec::Sort(1) => { let (v, s) = SortByKey::new(vals, stream, |x: &V| *x % 4); (v, Box::pin(s)) }
-                    Spec::Sort(c) => { let (v, s) = SortBy::new(vals, stream, move |a: &V, b: &V| cmp_table(c, a, b)); (v, Box::pin(s)) }
+                    Spec::Head(l) => { let (v, s) = (vals, stream).head(l); (v, Box::pin(s)) }
+                    Spec::DHead(k) => { let h = (vals, stream).dynamic_head(lims[k].clone()); let (v, s) = VectorObserver::into_parts(h); (v, Box::pin(s)) }
+                    Spec::DHeadI(l, k) => { let (v, s) = (vals, stream).dynamic_head_with_initial_value(l, lims[k].clone()); (v, Box::pin(s)) }
+                    Spec::Tail(l) => { let (v, s) = (vals, stream).tail(l); (v, Box::pin(s)) }
+                    Spec::DTail(k) => { let h = (vals, stream).dynamic_tail(lims[k].clone()); let (v, s) = VectorObserver::into_parts(h); (v, Box::pin(s)) }
+                    Spec::DTailI(l, k) => { let (v, s) = (vals, stream).dynamic_tail_with_initial_value(l, lims[k].clone()); (v, Box::pin(s)) }
+                    Spec::Skip(c) => { let (v, s) = (vals, stream).skip(c); (v, Box::pin(s)) }
+                    Spec::DSkip(k) => { let h = (vals, stream).dynamic_skip(lims[k].clone()); let (v, s) = VectorObserver::into_parts(h); (v, Box::pin(s)) }
+                    Spec::DSkipI(c, k) => { let (v, s) = (vals, stream).dynamic_skip_with_initial_count(c, lims[k].clone()); (v, Box::pin(s)) }
+                    Spec::Filter(m) => { let (v, s) = (vals, stream).filter(move |x: &V| passes(m, *x)); (v, Box::pin(s)) }
+                    Spec::FMap(m, f) => { let g = crate::eng_diff::map_fn(f); let (v, s) = (vals, stream).filter_map(move |x: V| if passes(m, x) { Some(g(x)) } else { None }); (v, Box::pin(s)) }
+                    Spec::Sort(0) => { let (v, s) = (vals, stream).sort(); (v, Box::pin(s)) }
+                    Spec::Sort(1) => { let (v, s) = (vals, stream).sort_by_key(|x: &V| *x % 4); (v, Box::pin(s)) }
+                    Spec::Sort(c) => { let (v, s) = (vals, stream).sort_by(move |a: &V, b: &V| cmp_table(c, a, b)); (v, Box::pin(s)) }
                 };
                 let log = Rc::new(RefCell::new(vec![]));
                 taps.push(log.clone());
@@ -251,7 +251,7 @@ impl PW {
             inits = i;
             self.stream = Some(PStream::B(st, top, taps));
         } else {
-            let (v, s) = sub.into_values_and_stream();
+            let (v, s) = VectorObserver::into_parts(sub);
             let (st, top, i, taps) = build_single(v, Box::pin(s), specs, &self.lims);
             inits = i;
             self.stream = Some(PStream::S(st, top, taps));
